@@ -6,6 +6,7 @@ CONSTANTS
   GuardTypedNil = FALSE
   CloseOnNilPayload = FALSE
   PooledBuffer = FALSE
+  UEOFIsEnd = FALSE
   MaxSeq = 3
   MaxContent = 2
   MaxChunks = 3
